@@ -23,7 +23,7 @@ import time
 import traceback
 from concurrent.futures import ProcessPoolExecutor
 
-from . import tlc
+from . import passive, tlc
 
 VERIF = tlc.VERIF
 REPO = os.environ.get("VERIF_REPO", "/repo")
@@ -244,6 +244,11 @@ def _corrupt(v, rng: random.Random):
                 return {**v, k: new}
         return _SAME
     return _SAME
+
+
+# properties with clauses in the composite specification (spec/FakeSnow.tla): their checks also validate the recorded
+# executions of the repository's own test-suite against those clauses (clause names start with the property id)
+PASSIVE_PROPS = {"C03", "C04", "C05", "C06", "C07"}
 
 
 class Prop:
@@ -498,7 +503,7 @@ class Run:
                     "tier": self.tier,
                     "seed": self.seed,
                     "judge": self.prop.judge_module,
-                    "mode": "noise" if viol["tid"].startswith("noise-") else "plain",
+                    "mode": "passive" if viol["tid"].startswith("passive:") else "noise" if viol["tid"].startswith("noise-") else "plain",
                     "tid": viol["tid"][6:] if viol["tid"].startswith("noise-") else viol["tid"],
                     "ops": [e["op"] for e in t["ev"]],
                     "trace": t["ev"],
@@ -635,8 +640,64 @@ class Run:
         )
         log(f"interference run: {len(traces)} behaviours in {time.time()-t0:.1f}s")
 
+    # ---- 8. trace validation of the repository's own test-suite against the composite specification
+    def passive_start(self):
+        if self.prop.id not in PASSIVE_PROPS or os.environ.get("VERIF_NO_PASSIVE") == "1":
+            return None
+        from concurrent.futures import ThreadPoolExecutor
+
+        ex = ThreadPoolExecutor(1)
+        return ex.submit(passive.record_suite, REPO, 6)
+
+    def passive_finish(self, fut, only_tests: list[str] | None = None):
+        if fut is None:
+            return
+        t0 = time.time()
+        traces, info = fut.result()
+        if info["passed"] == 0 or not traces:
+            raise tlc.MachineryError(f"recording the repository's test-suite produced nothing: {info}")
+        verdicts = passive.judge(traces)
+        mine = self.prop.id + "."
+        nviol, clause_hits = 0, {}
+        for t in traces:
+            bad = [b for b in verdicts.get(t["tid"], []) if any(c.startswith(mine) for c in b["clauses"])]
+            if not bad:
+                continue
+            nviol += 1
+            first = bad[0]
+            cl = sorted(c for c in first["clauses"] if c.startswith(mine))
+            for c in cl:
+                clause_hits[c] = clause_hits.get(c, 0) + 1
+            self.violations.append({
+                "tid": "passive:" + t["tid"],
+                "trace": {"tid": t["tid"], "ev": [{"op": e, "obs": {}} for e in t["ev"]]},
+                "verdict": {"v": "fail", "at": first["at"], "got": {"clauses violated": cl},
+                            "want": ["every clause of spec/FakeSnow.tla holds at every step of the recorded execution"]},
+            })
+        # binding self-test of the composite judge: one logged value changed per trace must be noticed
+        muts = passive.corrupt(traces, random.Random(self.seed * 7 + 1))
+        rejected = 0
+        if muts:
+            mv = passive.judge([m for m, _ in muts])
+            rejected = sum(1 for m, _ in muts if mv.get(m["tid"]))
+            if len(muts) >= 5 and rejected == 0:
+                raise tlc.MachineryError("composite judge accepted every corrupted recording")
+        self.extra_cov["repository_suite_traces"] = {
+            "what": "the repository's own tests recorded passively (one event per public call) and judged step by step "
+                    "against the composite specification spec/FakeSnow.tla; this check reports the clauses named " + mine + "*",
+            "suite": {k: info[k] for k in ("passed", "failed", "failing", "wall_s")},
+            "traces": len(traces), "events": info["events"],
+            "traces_violating_a_clause_of_this_property": nviol, "clauses_violated": clause_hits,
+            "binding_selftest": {"mutants": len(muts), "rejected": rejected},
+            "sample": traces[len(traces) // 2]["ev"][:6],
+        }
+        self.families["repository_suite"] = len(traces)
+        log(f"repository suite: {len(traces)} traces / {info['events']} events judged against FakeSnow.tla, "
+            f"{nviol} violate a {mine}* clause ({time.time()-t0:.1f}s after the suite's {info['wall_s']}s)")
+
     # ---- whole pipeline
     def execute(self) -> int:
+        pfut = self.passive_start()
         self.model_check()
         self.generate()
         self.add_pinned()
@@ -646,6 +707,7 @@ class Run:
             self.binding_selftest(traces)
         self.interference_run()
         self.prop.extra_checks(self.tier, self.seed, self)
+        self.passive_finish(pfut)
         self.evidence(traces)
         return self.report()
 
@@ -682,6 +744,21 @@ class Run:
         # same identity and seed as the recorded run: the driver's and the interference run's random choices are
         # functions of (seed, tid)
         self.seed = rp.get("seed", self.seed)
+        if rp.get("mode") == "passive":
+            # re-record the one test of the repository's suite and judge it again
+            traces, info = passive.record_suite(REPO, 1, tests=[rp["tid"][len("passive:"):] if rp["tid"].startswith("passive:") else rp["tid"]])
+            verdicts = passive.judge(traces)
+            mine = self.prop.id + "."
+            rc = 0
+            for t in traces:
+                for k, e in enumerate(t["ev"], 1):
+                    print(k, json.dumps(e))
+                for b in verdicts.get(t["tid"], []):
+                    cl = [c for c in b["clauses"] if c.startswith(mine)]
+                    if cl:
+                        print(f"VIOLATION property={self.prop.id} replay={path}\n  at step {b['at']}: {cl}")
+                        rc = 1
+            return rc
         self.behaviours = {rp.get("tid", "replay"): rp["ops"]}
         traces = self.drive_all(respell_mode="noise" if rp.get("mode") == "noise" else None)
         self.settle(traces, self.judge(traces))
